@@ -153,3 +153,38 @@ func VerifC06_Modifiers() {
 		zzverif.Assert(view[string(g.UUID())] == (c.Groups().FindByUUID(g.UUID()) != nil), "a membership change was not reported in a contact_groups_changed event")
 	}
 }
+
+// VerifC06_StaticOnly: assets without any query based group: a contact in any
+// subset of two static groups is given any status: a contact that ends up
+// non-active is in no static group, and the removals are announced by a
+// contact_groups_changed event (checked by replaying the events).
+// cover: deactivated, removed-from-static-groups, stays-active
+func VerifC06_StaticOnly() {
+	env := envs.NewBuilder().Build()
+	sa, groups := verifWorld(env)
+	c := flows.NewEmptyContact(sa, "Bob", "eng", nil)
+	statuses := []flows.ContactStatus{flows.ContactStatusActive, flows.ContactStatusBlocked, flows.ContactStatusStopped, flows.ContactStatusArchived}
+	old := statuses[zzverif.Choice("old-status", 4)]
+	c.SetStatus(old)
+	members := 0
+	if old == flows.ContactStatusActive {
+		for _, g := range groups {
+			if zzverif.Choice("member-of-"+g.Name(), 2) == 1 {
+				c.Groups().Add(g)
+				members++
+			}
+		}
+	}
+	nw := statuses[zzverif.Choice("new-status", 4)]
+	if nw != flows.ContactStatusActive && old == flows.ContactStatusActive {
+		zzverif.Cover("deactivated")
+		if members > 0 {
+			zzverif.Cover("removed-from-static-groups")
+		}
+	}
+	if nw == flows.ContactStatusActive && old == flows.ContactStatusActive {
+		zzverif.Cover("stays-active")
+	}
+	verifApplyAndCheck(verifEng(640), env, sa, groups, c, NewStatus(nw))
+	verifCheckMembership(env, c, groups)
+}
